@@ -403,3 +403,163 @@ def bytes_to_int(b, byteorder="big", signed=False):
     if L.hi is not None:
         c.add_fact(t < (1 << (8 * L.hi)))
     return SymZ(t, 0, None if L.hi is None else (1 << (8 * L.hi)) - 1)
+
+
+# ---------------------------------------------------------------------------
+# abstract byte strings: an uninterpreted sort with LEN and CAT.  Used by the protocol-level obligations,
+# where only length, concatenation and equality of strings matter; avoids the (slow) sequence theory.
+
+BYTES = z3.DeclareSort("Bytes")
+LEN = z3.Function("LEN", BYTES, z3.IntSort())
+CAT = z3.Function("CAT", BYTES, BYTES, BYTES)
+SLICE = z3.Function("SLICE", BYTES, z3.IntSort(), z3.IntSort(), BYTES)
+
+
+class AbsBytes:
+    __symx_shadow__ = True
+    __symx_bytes__ = True
+    __symx_int__ = False
+
+    def __init__(self, t, length, mutable=False, literal=None):
+        self.t = t
+        self.length = length
+        self.mutable = mutable
+        self.literal = literal
+
+    @staticmethod
+    def _reg():
+        c = core.cur()
+        if not hasattr(c, "abs_lits"):
+            c.abs_lits = {}
+            c.abs_cats = []
+        return c
+
+    @staticmethod
+    def concrete(b):
+        b = builtins.bytes(b)
+        c = AbsBytes._reg()
+        if b in c.abs_lits:
+            return AbsBytes(c.abs_lits[b], len(b), literal=b)
+        t = z3.Const("lit!%s" % (b.hex()[:24] + "_" + str(len(c.abs_lits))), BYTES)
+        c.add_fact(LEN(t) == len(b))
+        for b2, t2 in c.abs_lits.items():
+            c.add_fact(t != t2)
+        c.abs_lits[b] = t
+        return AbsBytes(t, len(b), literal=b)
+
+    @staticmethod
+    def var(name, min_len=0, max_len=None, length=None):
+        c = AbsBytes._reg()
+        t = z3.Const(name, BYTES)
+        if length is not None:
+            c.assume(LEN(t) == length)
+            return AbsBytes(t, length)
+        L = SymZ(LEN(t), min_len, max_len)
+        c.assume(LEN(t) >= min_len)
+        if max_len is not None:
+            c.assume(LEN(t) <= max_len)
+        return AbsBytes(t, L)
+
+    @staticmethod
+    def lift(o):
+        if isinstance(o, AbsBytes):
+            return o
+        if isinstance(o, (builtins.bytes, builtins.bytearray)):
+            return AbsBytes.concrete(o)
+        return None
+
+    def frozen(self):
+        return AbsBytes(self.t, self.length, False, self.literal)
+
+    def thawed(self):
+        return AbsBytes(self.t, self.length, True, self.literal)
+
+    def __symx_len__(self):
+        return self.length
+
+    def __len__(self):
+        if isinstance(self.length, int):
+            return self.length
+        return core.concretize(self.length)
+
+    def _cat(self, a, b):
+        if a.literal is not None and b.literal is not None:
+            return AbsBytes.concrete(a.literal + b.literal)
+        if a.literal == b"":
+            return b
+        if b.literal == b"":
+            return a
+        c = AbsBytes._reg()
+        t = CAT(a.t, b.t)
+        c.add_fact(LEN(t) == LEN(a.t) + LEN(b.t))
+        # cancellation instances: equal concatenations with equally long left parts have equal parts
+        for (a2, b2, t2) in c.abs_cats:
+            if not t2.eq(t):
+                c.add_fact(z3.Implies(z3.And(t == t2, LEN(a.t) == LEN(a2)), z3.And(a.t == a2, b.t == b2)))
+        # a concatenation differs from a literal of another length / equals no shorter part: only length facts are used
+        c.abs_cats.append((a.t, b.t, t))
+        return AbsBytes(t, a.length + b.length)
+
+    def __add__(self, o):
+        o2 = AbsBytes.lift(o)
+        if o2 is None:
+            return NotImplemented
+        return self._cat(self, o2)
+
+    def __radd__(self, o):
+        o2 = AbsBytes.lift(o)
+        if o2 is None:
+            return NotImplemented
+        return self._cat(o2, self)
+
+    def __eq__(self, o):
+        o2 = AbsBytes.lift(o)
+        if o2 is None:
+            return False
+        return SymBool(self.t == o2.t)
+
+    def __ne__(self, o):
+        r = self.__eq__(o)
+        if r is False:
+            return True
+        return ~r
+
+    def __hash__(self):
+        return 0x5c
+
+    def __getitem__(self, k):
+        if not isinstance(k, slice) or k.step not in (None, 1):
+            raise Unsupported("indexing an abstract byte string")
+        L = SymZ.lift(self.length)
+        lo = SymZ.const(0) if k.start is None else SymZ.lift(k.start)
+        hi = L if k.stop is None else SymZ.lift(k.stop)
+        if lo._is_const() and lo._cval() < 0:
+            lo = L + lo
+        if hi._is_const() and hi._cval() < 0:
+            hi = L + hi
+        lo = _clamp(lo, L)
+        hi = _clamp(hi, L)
+        n = core.symz_ite(hi.t >= lo.t, hi - lo, 0)
+        c = AbsBytes._reg()
+        t = SLICE(self.t, lo.t, hi.t)
+        c.add_fact(LEN(t) == n.t)
+        c.add_fact(z3.Implies(z3.And(lo.t == 0, hi.t == L.t), t == self.t))
+        nlen = n._cval() if n._is_const() else n
+        return AbsBytes(t, nlen)
+
+    def __bool__(self):
+        L = self.length
+        if isinstance(L, int):
+            return L != 0
+        return bool(L != 0)
+
+    def __iter__(self):
+        raise Unsupported("iterating an abstract byte string")
+
+    def __repr__(self):
+        return "AbsBytes(%s)" % core._short(self.t, 60)
+
+    __str__ = __repr__
+
+    def __format__(self, spec):
+        return repr(self)
